@@ -424,4 +424,162 @@ theorem prep_err (n : Nat) (ih : AllSpec n) (ihe : ErrSpec n) (args : List Expr)
     · exact h
     · exact (ihe.prep f (i + 1) es s1 s' hw1 hok.2 hrest).pre he1 su1 l1
 
+/-! ## `callResolved` -/
+
+theorem guarded_err (start : Nat) (m : M Unit) (s s' : St)
+    (h : (do
+      let s ← get
+      let r : Except Fault Unit × St := m.run s
+      set r.2
+      match r.1 with
+      | .ok _ => pure ()
+      | .error .err => do modify (fun s => { s with data := truncate s.data start }); throw .err
+      | .error flt => throw flt : M Unit).run s = (.error .err, s')) :
+    ∃ s1, m.run s = (.error .err, s1) ∧ s' = { s1 with data := truncate s1.data start } := by
+  simp only [run_bind, run_get, run_set] at h
+  rcases hm : m.run s with ⟨r, s1⟩
+  rw [hm] at h
+  cases r with
+  | ok u => simp only [run_pure] at h; cases h
+  | error e =>
+    cases e with
+    | err =>
+      simp only [run_bind, run_modify, run_throw] at h
+      injection h with _ h2
+      exact ⟨s1, rfl, h2.symm⟩
+    | panic => simp only [run_throw] at h; cases h
+    | timeout => simp only [run_throw] at h; cases h
+
+theorem ErrOut.setData {s s1 : St} (h : ErrOut s s1) (d : List (Option Val)) : ErrOut s { s1 with data := d } :=
+  ⟨h.tab.same rfl rfl rfl rfl rfl rfl, h.ext.trans (TExt.same rfl rfl), h.susp, h.lin⟩
+
+theorem resolved_err (n : Nat) (ih : AllSpec n) (ihe : ErrSpec n) (s s' : St) (f : Val) (args : List Expr) (hw : WF s)
+    (hoa : okLs args = true) (hex : (callResolved (n + 1) f args).run s = (.error .err, s')) : ErrOut s s' := by
+  unfold VM.callResolved at hex
+  rw [run_bind, run_get] at hex
+  dsimp only at hex
+  split at hex
+  · rename_i fid
+    obtain ⟨s2, hex', rfl⟩ := guarded_err _ _ s s' hex
+    apply ErrOut.setData
+    rw [run_bind] at hex'
+    rcases hp : (prepareArgs n (some (fnOf s fid)) 0 args).run s with ⟨r, s1⟩
+    rw [hp] at hex'
+    cases r with
+    | error e => cases hex'; exact ihe.prep _ _ _ s s2 hw hoa hp
+    | ok u =>
+      simp only at hex'
+      obtain ⟨hw1, he1, hd1, hl1, ha1, hc1, hp1, hs1⟩ := ih.prep _ _ _ s s1 hw hoa hp
+      exact (callFunction_err fid args.length s1 s2 hw1 hex').pre he1 hs1 hl1
+  · rename_i name
+    obtain ⟨s2, hex', rfl⟩ := guarded_err _ _ s s' hex
+    apply ErrOut.setData
+    rw [run_bind] at hex'
+    rcases hp : (prepareArgs n none 0 args).run s with ⟨r, s1⟩
+    rw [hp] at hex'
+    cases r with
+    | error e => cases hex'; exact ihe.prep _ _ _ s s2 hw hoa hp
+    | ok u =>
+      simp only at hex'
+      obtain ⟨hw1, he1, hd1, hl1, ha1, hc1, hp1, hs1⟩ := ih.prep _ _ _ s s1 hw hoa hp
+      exact (ihe.user name args.length s1 s2 (s.data.map cellOf) hw1 hd1 hex').pre he1 hs1 hl1
+  · obtain ⟨s2, hex', rfl⟩ := guarded_err _ _ s s' hex
+    apply ErrOut.setData
+    rw [run_bind] at hex'
+    rcases hp : (prepareArgs n none 0 args).run s with ⟨r, s1⟩
+    rw [hp] at hex'
+    cases r with
+    | error e => cases hex'; exact ihe.prep _ _ _ s s2 hw hoa hp
+    | ok u =>
+      simp only at hex'
+      obtain ⟨hw1, he1, hd1, hl1, ha1, hc1, hp1, hs1⟩ := ih.prep _ _ _ s s1 hw hoa hp
+      cases hex'
+      exact ⟨hw1.wfd, he1, hs1, hl1⟩
+  · split at hex
+    · simp only [run_bind, run_pushData, run_incPc] at hex; cases hex
+    · cases hex; exact ErrOut.refl hw
+
+/-! ## `callUser` -/
+
+theorem user_err (hnp : NoBuiltinPanic) (n : Nat) (ih : AllSpec n) (ihe : ErrSpec n) (name : String) (k : Nat) (s s' : St)
+    (tail : List Cell) (hw : WF s) (hd : s.data.map cellOf = List.replicate k .val ++ tail)
+    (hex : (callUser (n + 1) name k).run s = (.error .err, s')) : ErrOut s s' := by
+  unfold VM.callUser at hex
+  rw [run_bind, run_get] at hex
+  dsimp only at hex
+  by_cases h0 : s.data.length < k
+  · simp only [h0, if_true, run_bind, run_err] at hex; cases hex; exact ErrOut.refl hw
+  · by_cases h00 : (s.data.take k).any Option.isNone = true
+    · simp only [h0, h00, if_true, if_false, run_bind, run_pure, run_hostPanic] at hex; cases hex
+    · simp only [h0, h00, if_false, run_bind, run_pure, Bool.false_eq_true] at hex
+      rw [run_popN] at hex
+      simp only [h0, if_false] at hex
+      cases hm : (s.data.take k).mapM id with
+      | none => rw [hm] at hex; cases hex
+      | some vs =>
+        rw [hm] at hex
+        simp only [run_capture, run_modify, run_get, run_set] at hex
+        have htake : (s.data.take k).map cellOf = List.replicate k Cell.val := by
+          rw [List.map_take, hd, List.take_left' (by simp)]
+        have hvs : ∀ v ∈ vs, vok s.fns.length v = true := by
+          apply vals_vok _ vs hm (fun c hcm => hw.data c (List.mem_of_mem_take hcm))
+          intro c hcm
+          rw [htake] at hcm
+          exact List.eq_of_mem_replicate hcm
+        let s2 : St := { s with data := s.data.drop k, addr := some (s.curfunc, s.pc + 1) :: s.addr, curfunc := builtinFn, pc := -1 }
+        have hw2 : WF s2 :=
+          hw.mk' (TExt.same rfl rfl) (fun j h1 h2 => absurd h2 (Nat.not_lt.mpr h1)) hw.loopstack hw.scopes hw.heap hw.lazies
+            (fun c hcm => hw.data c (List.mem_of_mem_drop hcm))
+        rcases hb : (builtin n name vs.reverse).run s2 with ⟨r, s3⟩
+        have hb' : (builtin n name vs.reverse).run
+            { s with data := s.data.drop k, addr := some (s.curfunc, s.pc + 1) :: s.addr, curfunc := builtinFn, pc := -1 } = (r, s3) := hb
+        rw [hb'] at hex
+        cases r with
+        | ok v =>
+          exfalso
+          simp only [run_bind, run_pushData, run_get] at hex
+          split at hex
+          · split at hex
+            · simp only [run_set] at hex; cases hex
+            · simp only [run_hostPanic] at hex; cases hex
+          · simp only [run_set] at hex; cases hex
+        | error e =>
+          cases e with
+          | timeout => simp only [run_throw] at hex; cases hex
+          | panic => exact absurd hb (hnp n name vs.reverse s2 s3 hw2 rfl (fun a ha => hvs a (List.mem_reverse.mp ha)))
+          | err =>
+            simp only [run_bind, run_restore, run_throw] at hex
+            injection hex with _ h2
+            subst h2
+            have hb3 := ihe.builtin name vs.reverse s2 s3 hw2 rfl (fun a ha => hvs a (List.mem_reverse.mp ha)) hb
+            obtain ⟨r1, r2⟩ := restore_lin { s with data := s.data.drop k } s3 hb3.lin hb3.susp
+            exact ⟨hb3.tab.restore _, (show TExt s s2 from TExt.same rfl rfl).trans (hb3.ext.trans (TExt.same rfl rfl)), r2, r1⟩
+
+/-! ## `exec` -/
+
+theorem exec_err (n : Nat) (ih : AllSpec n) (ihe : ErrSpec n) (b : Base) (s s' : St) (top : Act) (rest : List Act) (i : Instr)
+    (hw : WF s) (hr : Running b s top rest) (hf : (fnOf s s.curfunc).code[s.pc.toNat]? = some i)
+    (hex : (exec (n + 1) i).run s = (.error .err, s')) : FaultOK b s s' := by
+  by_cases hs : simple i = true
+  · exact faultOK_simple hw hr hf hs n .err hex
+  · cases i with
+    | callArr k =>
+      simp only [exec] at hex
+      obtain ⟨tail, ht⟩ := hr.top_vals hf (p := k) (m := 1) rfl
+      exact (ihe.user "array" k s s' tail hw ht hex).faultOK hr
+    | callExpr c args =>
+      have hio := hr.instrOK hf
+      simp only [instrOK, Bool.and_eq_true] at hio
+      simp only [exec] at hex
+      rw [run_bind] at hex
+      rcases hev : (evalCallExpr n c).run s with ⟨r, s1⟩
+      rw [hev] at hex
+      cases r with
+      | error e => cases hex; exact (ihe.eval c s s' hw hio.1 hev).faultOK hr
+      | ok f =>
+        dsimp only at hex
+        obtain ⟨hk, hv⟩ := ih.eval c s s1 f hw hio.1 hev
+        exact ((ihe.resolved s1 s' f args hk.wf hio.2 hex).pre hk.ext hk.same.susp hk.same.linear).faultOK hr
+    | _ => exact absurd rfl hs
+
 end ZygoVerif.RunInv
